@@ -2,6 +2,7 @@ import python_minifier.ast_compat as ast
 from python_minifier.ast_annotation import get_parent, add_parent as add_node_parent
 
 from python_minifier.rename.mapper import add_parent
+from python_minifier.util import is_constant_node
 
 
 class NodeVisitor(object):
@@ -149,6 +150,27 @@ class SuiteTransformer(NodeVisitor):
 
     def suite(self, node_list, parent):
         return [self.visit(node) for node in node_list]
+
+    def keep_docstring_position(self, node_list, suite, parent):
+        """
+        Removing the statements at the start of a body must not turn a following string statement into a docstring
+
+        :param node_list: The original statements of the body
+        :param suite: The statements that remain
+        :param parent: The node the body belongs to
+        :rtype: list[ast.AST]
+        """
+
+        if not suite or suite[0] is node_list[0]:
+            return suite
+
+        if not isinstance(parent, (ast.Module, ast.ClassDef, ast.FunctionDef, ast.AsyncFunctionDef)):
+            return suite
+
+        if isinstance(suite[0], ast.Expr) and is_constant_node(suite[0].value, ast.Str):
+            return [self.add_child(ast.Expr(value=ast.Num(0)), parent=parent)] + suite
+
+        return suite
 
     def generic_visit(self, node):
         for field, old_value in ast.iter_fields(node):
